@@ -13,17 +13,17 @@ func buildPlan(id string, pinned map[string]string, tier string) *Plan {
 	case "C01":
 		p := &Plan{ID: id}
 		for _, pk := range fps {
-			p.Units = append(p.Units, Unit{Pkg: pk, Tags: "purego", Groups: []string{"field", "conv"}})
+			p.Units = append(p.Units, Unit{Pkg: pk, Tags: "purego", Groups: []string{"field", "conv", "vector"}})
 		}
 		for _, pk := range fps {
 			// default build configuration: the Go-bodied functions (assembly entry points are assumed contracts)
-			p.Units = append(p.Units, Unit{Pkg: pk, Tags: "", Groups: []string{"field", "conv"}})
+			p.Units = append(p.Units, Unit{Pkg: pk, Tags: "", Groups: []string{"field", "conv", "vector"}})
 		}
 		p.Trusted = []string{"pinned moduli in /verif/contracts/params.json (published curve parameters)",
 			"product abstraction: a product of two symbolic words is an opaque integer constrained only by its interval bound (sound: only weakens hypotheses)",
 			"lemma schema mulmono: a <= b && c >= 0 ==> a*c <= b*c (hypotheses discharged per instance)"}
 		p.Assumptions = []string{"Element.Div is proved equal to x * inv(y) with inv = Element.Inverse interpreted (not proved) at the ring layer: Inverse's addition chain / Pornin inversion is not under contract"}
-		p.NotCovered = []string{"Inverse, Exp, Sqrt, Legendre, BatchInvert, Vector operations, SetRandom, hashing to the field: not under contract"}
+		p.NotCovered = []string{"Inverse, Exp, Sqrt, Legendre, BatchInvert, SetRandom: not under contract; the AVX-512 / assembly vector kernels are outside (the portable vector loops are under contract)"}
 		p.Note = "Every arithmetic entry point under contract is verified against its integer-mod-q specification for all inputs and all alias partitions of its pointer operands."
 		return p
 	case "C08":
@@ -201,7 +201,7 @@ func buildPlan(id string, pinned map[string]string, tier string) *Plan {
 	case "C19":
 		p := &Plan{ID: id}
 		for _, pk := range fps {
-			p.Units = append(p.Units, Unit{Pkg: pk, Tags: "purego", Groups: []string{"field", "conv"}, MultiPartOnly: true})
+			p.Units = append(p.Units, Unit{Pkg: pk, Tags: "purego", Groups: []string{"field", "conv", "vector"}, MultiPartOnly: true})
 		}
 		for _, t := range towers {
 			p.Units = append(p.Units, Unit{Pkg: "./" + t.Rel, Tags: "portable", Groups: []string{"tower"}, MultiPartOnly: true})
